@@ -2,9 +2,16 @@ package props
 
 import (
 	"fmt"
+	"sort"
 	"time"
 
+	"github.com/ontio/ontology-crypto/keypair"
+	"github.com/ontio/ontology/account"
 	"github.com/ontio/ontology/common"
+	"github.com/ontio/ontology/consensus/vbft"
+	"github.com/ontio/ontology/core/signature"
+	"github.com/ontio/ontology/core/types"
+	msgpack "github.com/ontio/ontology/p2pserver/message/msg_pack"
 
 	"ontosim/simkit"
 	"ontosim/world"
@@ -16,19 +23,26 @@ type vbftOpts struct {
 	MaxSteps     int
 	TargetHeight uint32
 	// fault rates (out of 1000 per scheduler decision); 0 = kind disabled this run
-	Drop, Dup, Reorder, Partition, TimeSkip int
+	Drop, Dup, Reorder, Partition, TimeSkip, Restart int
+	// Byzantine behaviour of node Byz (-1: none)
+	Byz                              int
+	ByzForgeCommit, ByzDoubleEndorse int // per-1000 rates per quiescent point
+	ByzEquivocate                    bool
+	ByzWithhold                      int
 	// invariant evaluated at every quiescent point
 	Inv func(net *world.VbftNet, step int)
-	// Extra lets a property add its own actions (e.g. Byzantine sends) at quiescent points
-	Extra func(net *world.VbftNet, step int)
+	// Stop ends the run early when it returns true (e.g. after a known finding was recorded)
+	Stop func() bool
 }
 
 type vbftStats struct {
-	Steps, Releases, Delivered, Dropped, Duplicated, TimeAdv int
-	MaxHeight                                                 uint32
+	Steps, Releases, Delivered, Dropped, Duplicated, TimeAdv, Restarts int
+	MaxHeight                                                          uint32
+	SimTime                                                            time.Duration
+	Reached                                                            bool
 }
 
-// sealedHeights returns, per node, the highest height with a sealed block.
+// vbftHeights returns, per node, the highest chained (sealed) height.
 func vbftHeights(net *world.VbftNet) []uint32 {
 	out := make([]uint32, net.N)
 	for i, nd := range net.Nodes {
@@ -42,22 +56,251 @@ func vbftHeights(net *world.VbftNet) []uint32 {
 	return out
 }
 
+// vbftFund prepares transactions the tx-pool stubs can offer: 1-unit ONT
+// transfers out of the genesis multi-signature account, signed by m peers.
+func vbftFund(c *simkit.Ctx, net *world.VbftNet, count int) []*types.Transaction {
+	n := len(net.Books)
+	m := (5*n + 6) / 7
+	from, err := types.AddressFromMultiPubKeys(net.Books, m)
+	c.Must(err, "genesis multisig address")
+	byKey := map[string]*account.Account{}
+	for _, nd := range net.Nodes {
+		byKey[string(keypair.SerializePublicKey(nd.Acc.PublicKey))] = nd.Acc
+	}
+	var signers []*account.Account
+	for _, pk := range net.Books[:m] {
+		signers = append(signers, byKey[string(keypair.SerializePublicKey(pk))])
+	}
+	var out []*types.Transaction
+	for i := 0; i < count; i++ {
+		to := net.Nodes[i%net.N].Acc.Address
+		mt, err := world.TransferTx("ont", from, to, 1, 0, 20000, uint32(1000+i), from)
+		c.Must(err, "fund tx")
+		c.Must(world.MultiSign(mt, uint16(m), net.Books, signers), "multisign")
+		tx, err := world.Seal(mt)
+		c.Must(err, "seal")
+		out = append(out, tx)
+	}
+	return out
+}
+
+// vbftOfferTxs gives every node's pool stub a tape-chosen subset of the
+// transactions not yet on that node's chain.
+func vbftOfferTxs(c *simkit.Ctx, net *world.VbftNet, all []*types.Transaction) {
+	t := c.Tape
+	for _, nd := range net.Nodes {
+		if nd.Chain.Store == nil {
+			continue
+		}
+		var sub []*types.Transaction
+		for _, tx := range all {
+			if ok, _ := nd.Chain.Store.IsContainTransaction(tx.Hash()); ok {
+				continue
+			}
+			if len(sub) < 3 && t.Prob(1, 2) {
+				sub = append(sub, tx)
+			}
+		}
+		nd.PoolTx = sub
+	}
+}
+
+type vbftRun struct {
+	c       *simkit.Ctx
+	net     *world.VbftNet
+	o       vbftOpts
+	st      vbftStats
+	txs     []*types.Transaction
+	pending map[int]int // node -> steps until restart
+	byzAlt  map[uint32]bool
+}
+
+// everFaulty counts the peers that are faulty in this run: the Byzantine one and
+// every node that ever crashed (a restarted node has lost its votes: it may sign
+// a second block for a height, exactly like a Byzantine peer).
+func (r *vbftRun) everFaulty() int {
+	n := 0
+	for _, nd := range r.net.Nodes {
+		if nd.Byz || nd.Crashed {
+			n++
+		}
+	}
+	return n
+}
+
+// crashNode kills a node's process (server and ledger handles are dropped; the
+// disk image survives) and schedules its restart.
+func (r *vbftRun) crashNode(i int) {
+	nd := r.net.Nodes[i]
+	nd.Crashed = true
+	r.net.StopNode(nd)
+	nd.Chain.Close()
+	world.Quiesce()
+	nd.Chain.Disk.Restart()
+	r.pending[i] = 1 + r.c.Tape.Choose(400)
+	r.c.Fault("node_crash")
+	r.c.Logf("CRASH node %d (restart in %d steps)", i, r.pending[i])
+}
+
+func (r *vbftRun) restartNode(i int) {
+	nd := r.net.Nodes[i]
+	delete(r.pending, i)
+	if err := r.net.ReopenLedger(nd); err != nil {
+		r.c.Fail("restart-fails", "node-restart", "node %d cannot reopen its ledger: %v", i, err)
+	}
+	if err := r.net.StartNode(nd); err != nil {
+		r.c.Fail("restart-fails", "node-restart", "node %d cannot restart its consensus server: %v", i, err)
+	}
+	r.st.Restarts++
+	r.c.Fault("node_restart")
+	r.c.Logf("RESTART node %d at height %d", i, nd.Chain.Store.GetCurrentBlockHeight())
+}
+
+// send injects a consensus message signed by node b's account to node `to`.
+func (r *vbftRun) byzSend(b int, msg vbft.ConsensusMsg, to []int, what string) {
+	nd := r.net.Nodes[b]
+	payload, err := vbft.SimWrap(nd.Acc, msg)
+	if err != nil {
+		return
+	}
+	for _, j := range to {
+		if j == b {
+			continue
+		}
+		r.net.Enqueue(b, j, msgpack.NewConsensus(payload))
+	}
+	r.c.Logf("BYZ node %d sends %s to %v", b, what, to)
+}
+
+// byzStep lets the Byzantine peer misbehave at a quiescent point.
+func (r *vbftRun) byzStep() {
+	o, t, net := r.o, r.c.Tape, r.net
+	if o.Byz < 0 {
+		return
+	}
+	bn := net.Nodes[o.Byz]
+	if bn.Srv == nil {
+		return
+	}
+	// pick the round of some honest running node
+	var blk uint32
+	var view *world.VNode
+	for _, nd := range net.Nodes {
+		if !nd.Byz && nd.Srv != nil {
+			cur, _, _ := nd.Srv.SimBlockNums()
+			if cur > blk {
+				blk, view = cur, nd
+			}
+		}
+	}
+	if view == nil {
+		return
+	}
+	others := func() []int {
+		var out []int
+		for j := 0; j < net.N; j++ {
+			if j != o.Byz && t.Prob(2, 3) {
+				out = append(out, j)
+			}
+		}
+		return out
+	}
+	props, _, _ := view.Srv.SimCandidate(blk)
+	if o.ByzForgeCommit > 0 && len(props) > 0 && t.Prob(o.ByzForgeCommit, 1000) {
+		p := props[t.Choose(len(props))]
+		forEmpty := p.HasEmpty && t.Bool()
+		h := p.BlockHash
+		if forEmpty {
+			h = p.EmptyHash
+		}
+		claimed := map[uint32][]byte{}
+		for j := 1; j <= net.N; j++ {
+			if j != o.Byz+1 && t.Prob(3, 4) {
+				claimed[uint32(j)] = t.Bytes(1 + t.Choose(70)) // junk signature bytes
+			}
+		}
+		msg, err := vbft.SimBuildCommit(bn.Acc, uint32(o.Byz+1), p.Proposer, blk, h, forEmpty, nil, claimed)
+		if err == nil {
+			r.c.Fault("byz_forged_commit")
+			r.byzSend(o.Byz, msg, others(), fmt.Sprintf("forged commit blk=%d proposer=%d empty=%v claiming %d endorsers", blk, p.Proposer, forEmpty, len(claimed)))
+		}
+	}
+	if o.ByzDoubleEndorse > 0 && len(props) > 0 && t.Prob(o.ByzDoubleEndorse, 1000) {
+		for _, p := range props {
+			forEmpty := p.HasEmpty && t.Bool()
+			h := p.BlockHash
+			if forEmpty {
+				h = p.EmptyHash
+			}
+			msg, err := vbft.SimBuildEndorse(bn.Acc, uint32(o.Byz+1), p.Proposer, blk, h, forEmpty, nil)
+			if err == nil {
+				r.c.Fault("byz_multi_endorse")
+				r.byzSend(o.Byz, msg, others(), fmt.Sprintf("endorse blk=%d proposer=%d empty=%v", blk, p.Proposer, forEmpty))
+			}
+		}
+	}
+	if o.ByzEquivocate && !r.byzAlt[blk] {
+		bcur, _, _ := bn.Srv.SimBlockNums()
+		_, proposers, _, _, _, _, _ := bn.Srv.SimParticipants()
+		isProposer := false
+		for _, p := range proposers {
+			if p == uint32(o.Byz+1) {
+				isProposer = true
+			}
+		}
+		if bcur == blk && isProposer && bn.Srv.SimIsReady() {
+			// a second, different, correctly signed proposal for the same round
+			var alt []*types.Transaction
+			for _, tx := range r.txs {
+				if ok, _ := bn.Chain.Store.IsContainTransaction(tx.Hash()); !ok && t.Prob(1, 2) && len(alt) < 2 {
+					alt = append(alt, tx)
+				}
+			}
+			world.SwitchLedger(bn)
+			msg, err := bn.Srv.SimBuildProposal(blk, alt)
+			if err == nil {
+				r.byzAlt[blk] = true
+				r.c.Fault("byz_equivocate_proposal")
+				r.byzSend(o.Byz, msg, others(), fmt.Sprintf("second proposal blk=%d txs=%d", blk, len(alt)))
+			}
+		}
+	}
+}
+
 // runVbft drives the network: at every quiescent point the tape picks one of
 // release-a-goroutine / deliver-a-message (any one: reordering) / drop /
-// duplicate / advance-the-clock / partition change.
+// duplicate / advance-the-clock / partition change / crash / restart.
 func runVbft(c *simkit.Ctx, net *world.VbftNet, o vbftOpts) vbftStats {
 	t := c.Tape
-	var st vbftStats
+	r := &vbftRun{c: c, net: net, o: o, pending: map[int]int{}, byzAlt: map[uint32]bool{}}
+	r.txs = vbftFund(c, net, 12)
+	if o.Byz >= 0 {
+		net.Nodes[o.Byz].Byz = true
+		if o.ByzWithhold > 0 {
+			net.OnSend = func(m *world.NetMsg) bool {
+				if m.From == o.Byz && t.Prob(o.ByzWithhold, 1000) {
+					c.Fault("byz_withhold")
+					return false
+				}
+				return true
+			}
+		}
+	}
 	start := time.Now()
+	st := &r.st
+	lastOffer := -1
 	for st.Steps = 0; st.Steps < o.MaxSteps; st.Steps++ {
 		world.Quiesce()
 		if o.Inv != nil {
 			o.Inv(net, st.Steps)
 		}
+		if o.Stop != nil && o.Stop() {
+			break
+		}
 		hs := vbftHeights(net)
 		minH := ^uint32(0)
 		for i, h := range hs {
-			if net.Nodes[i].Down || net.Nodes[i].Byz {
+			if net.Nodes[i].Byz {
 				continue
 			}
 			if h < minH {
@@ -67,11 +310,46 @@ func runVbft(c *simkit.Ctx, net *world.VbftNet, o vbftOpts) vbftStats {
 				st.MaxHeight = h
 			}
 		}
-		if minH != ^uint32(0) && minH >= o.TargetHeight {
+		if minH != ^uint32(0) && minH >= o.TargetHeight && len(r.pending) == 0 {
+			st.Reached = true
 			break
 		}
-		if o.Extra != nil {
-			o.Extra(net, st.Steps)
+		if int(st.MaxHeight) != lastOffer {
+			lastOffer = int(st.MaxHeight)
+			vbftOfferTxs(c, net, r.txs)
+		}
+		// node restarts that are due
+		var due []int
+		for i := range r.pending {
+			due = append(due, i)
+		}
+		sort.Ints(due)
+		for _, i := range due {
+			r.pending[i]--
+			if r.pending[i] <= 0 {
+				r.restartNode(i)
+			}
+		}
+		if len(due) > 0 {
+			continue
+		}
+		r.byzStep()
+		// crash of an honest node (at most C faulty in total, the Byzantine one included)
+		if o.Restart > 0 && t.Prob(o.Restart, 1000) {
+			{
+				// a node that crashed once may crash again; a fresh victim only while
+				// the number of faulty peers stays within C
+				var cand []int
+				for i, nd := range net.Nodes {
+					if !nd.Byz && !nd.Down && nd.Srv != nil && (nd.Crashed || r.everFaulty() < o.C) {
+						cand = append(cand, i)
+					}
+				}
+				if len(cand) > 0 {
+					r.crashNode(cand[t.Choose(len(cand))])
+					continue
+				}
+			}
 		}
 		parked := net.Sched.Parked()
 		// The send loop only moves messages from the server's 16-slot send channel
@@ -107,6 +385,7 @@ func runVbft(c *simkit.Ctx, net *world.VbftNet, o vbftOpts) vbftStats {
 			wTime = 1
 		} else if o.TimeSkip > 0 && t.Prob(o.TimeSkip, 1000) {
 			wGate, wMsg, wTime = 0, 0, 1
+			c.Fault("early_timeout")
 		}
 		switch t.Pick(wGate, wMsg, wTime) {
 		case 0:
@@ -142,9 +421,9 @@ func runVbft(c *simkit.Ctx, net *world.VbftNet, o vbftOpts) vbftStats {
 				cp := *m
 				net.Flight = append(net.Flight, &cp)
 			}
-			r := net.Deliver(m)
+			res := net.Deliver(m)
 			st.Delivered++
-			c.Logf("deliver %d->%d #%d %s [%s]", m.From, m.To, m.Seq, m.Desc, r)
+			c.Logf("deliver %d->%d #%d %s [%s]", m.From, m.To, m.Seq, m.Desc, res)
 		case 2:
 			q := []time.Duration{100 * time.Millisecond, 500 * time.Millisecond, time.Second, 2 * time.Second, 5 * time.Second, 10 * time.Second}[t.Choose(6)]
 			time.Sleep(q)
@@ -166,8 +445,8 @@ func runVbft(c *simkit.Ctx, net *world.VbftNet, o vbftOpts) vbftStats {
 			}
 		}
 	}
-	_ = start
-	return st
+	st.SimTime = time.Since(start)
+	return *st
 }
 
 // checkAgreement is the C34 safety invariant: no two honest nodes hold different
@@ -177,8 +456,8 @@ func checkAgreement(c *simkit.Ctx, net *world.VbftNet, maxH uint32, sig string) 
 		var ref common.Uint256
 		refNode := -1
 		for _, nd := range net.Nodes {
-			if nd.Byz {
-				continue
+			if nd.Byz || nd.Crashed {
+				continue // faulty peers are outside the property
 			}
 			var hashes []common.Uint256
 			if nd.Srv != nil {
@@ -193,11 +472,327 @@ func checkAgreement(c *simkit.Ctx, net *world.VbftNet, maxH uint32, sig string) 
 				if refNode < 0 {
 					ref, refNode = hh, nd.I
 				} else if hh != ref {
-					c.Fail("fork", sig, "height %d: node %d has block %x, node %d has block %x", h, refNode, ref[:6], nd.I, hh[:6])
+					class := classifyFork(net, h, ref, hh)
+					c.FailSoft("fork", sig+"/"+class, "height %d: node %d has block %x, node %d has block %x (%s)\n%s\n%s", h, refNode, ref[:6], nd.I, hh[:6], class,
+						describeRound(net.Nodes[refNode], h), describeRound(nd, h))
+					return
 				}
 			}
 		}
 	}
 }
 
-var _ = fmt.Sprint
+// classifyFork names the class of a fork from the signatures the nodes hold:
+// "same-proposer-two-blocks" when both blocks come from one (faulty) proposer -
+// votes are pooled per proposer, not per block hash; "honest-node-signed-both" when some honest peer has a VALID signature (as
+// proposer, endorser or committer) on both conflicting blocks of the height -
+// the protocol let an honest node vote twice; "quorums-without-common-honest-signer"
+// otherwise (the quorum rule itself was too weak, or votes were counted that carry
+// no valid signature).
+func classifyFork(net *world.VbftNet, h uint32, a, b common.Uint256) string {
+	pubs := map[uint32]keypair.PublicKey{}
+	for _, nd := range net.Nodes {
+		pubs[uint32(nd.I+1)] = nd.Acc.PublicKey
+	}
+	signed := map[uint32]map[common.Uint256]bool{}
+	mark := func(idx uint32, hash common.Uint256, sig []byte, trusted bool) {
+		if hash != a && hash != b {
+			return
+		}
+		if !trusted {
+			pk, ok := pubs[idx]
+			if !ok || len(sig) == 0 || signature.Verify(pk, hash[:], sig) != nil {
+				return
+			}
+		}
+		if signed[idx] == nil {
+			signed[idx] = map[common.Uint256]bool{}
+		}
+		signed[idx][hash] = true
+	}
+	for _, nd := range net.Nodes {
+		if nd.Srv == nil {
+			continue
+		}
+		props, endorses, commits := nd.Srv.SimCandidate(h)
+		for _, p := range props {
+			// a proposal in the pool passed the proposer-signature check on both hashes
+			mark(p.Proposer, p.BlockHash, nil, true)
+			if p.HasEmpty {
+				mark(p.Proposer, p.EmptyHash, nil, true)
+			}
+		}
+		for _, e := range endorses {
+			mark(e.Endorser, a, e.Sig, false)
+			mark(e.Endorser, b, e.Sig, false)
+		}
+		for _, m := range commits {
+			mark(m.Committer, m.Hash, m.CommitterSig, false)
+			for idx, s := range m.EndorsersSig {
+				mark(idx, m.Hash, s, false)
+			}
+		}
+	}
+	// the same proposer signed both blocks: it equivocated (a Byzantine proposer,
+	// or one that crashed and proposed again after restart)
+	propOf := map[common.Uint256]uint32{}
+	for _, nd := range net.Nodes {
+		if nd.Srv == nil {
+			continue
+		}
+		if hh, p, _, ok := nd.Srv.SimSealed(h); ok {
+			propOf[hh] = p
+		}
+		props, _, _ := nd.Srv.SimCandidate(h)
+		for _, p := range props {
+			propOf[p.BlockHash] = p.Proposer
+			if p.HasEmpty {
+				propOf[p.EmptyHash] = p.Proposer
+			}
+		}
+	}
+	if pa, ok := propOf[a]; ok {
+		if pb, ok2 := propOf[b]; ok2 && pa == pb {
+			return "same-proposer-two-blocks"
+		}
+	}
+	var both []uint32
+	for _, nd := range net.Nodes {
+		idx := uint32(nd.I + 1)
+		if !nd.Byz && !nd.Crashed && signed[idx][a] && signed[idx][b] {
+			both = append(both, idx)
+		}
+	}
+	if len(both) > 0 {
+		return "honest-node-signed-both"
+	}
+	return "quorums-without-common-honest-signer"
+}
+
+// checkCommitQuorum is the C31 oracle: whenever an honest node's own predicate
+// says commit consensus is reached for proposer p, recount the DISTINCT peers
+// for which the node holds a signature that VERIFIES over that proposal's block
+// hash (the proposer's own signature counts); it must reach N-(N-1)/3.
+func checkCommitQuorum(c *simkit.Ctx, net *world.VbftNet, sigBase string) {
+	pubs := map[uint32]keypair.PublicKey{}
+	for _, nd := range net.Nodes {
+		pubs[uint32(nd.I+1)] = nd.Acc.PublicKey
+	}
+	for _, nd := range net.Nodes {
+		if nd.Byz || nd.Srv == nil {
+			continue
+		}
+		cur, _, _ := nd.Srv.SimBlockNums()
+		proposer, forEmpty, done := nd.Srv.SimCommitDone(cur)
+		if !done {
+			continue
+		}
+		c.Probe("commit_done_evaluated")
+		props, endorses, commits := nd.Srv.SimCandidate(cur)
+		cfg := nd.Srv.SimChainConfig()
+		need := int(cfg.N) - (int(cfg.N)-1)/3
+		// every hash proposer p signed for this round (block / empty block, any of its proposals)
+		best := 0
+		var bestDesc string
+		type cand struct {
+			h     common.Uint256
+			empty bool
+		}
+		var cands []cand
+		for _, p := range props {
+			if p.Proposer != proposer {
+				continue
+			}
+			cands = append(cands, cand{p.BlockHash, false})
+			if p.HasEmpty {
+				cands = append(cands, cand{p.EmptyHash, true})
+			}
+		}
+		// block hashes named by commit messages for this proposer (the node may hold
+		// no proposal yet); the proposer's own signature is then not known to exist
+		known := map[common.Uint256]bool{}
+		for _, cd := range cands {
+			known[cd.h] = true
+		}
+		var extra []cand
+		for _, m := range commits {
+			if m.Proposer == proposer && !known[m.Hash] {
+				known[m.Hash] = true
+				extra = append(extra, cand{m.Hash, m.ForEmpty})
+			}
+		}
+		nProp := len(cands)
+		cands = append(cands, extra...)
+		for ci, cd := range cands {
+			signers := map[uint32]bool{}
+			if ci < nProp {
+				signers[proposer] = true
+			}
+			valid := func(idx uint32, sig []byte) bool {
+				pk, ok := pubs[idx]
+				return ok && len(sig) > 0 && signature.Verify(pk, cd.h[:], sig) == nil
+			}
+			for _, e := range endorses {
+				if e.Proposer == proposer && valid(e.Endorser, e.Sig) {
+					signers[e.Endorser] = true
+				}
+			}
+			for _, m := range commits {
+				if m.Proposer != proposer {
+					continue
+				}
+				if valid(m.Committer, m.CommitterSig) {
+					signers[m.Committer] = true
+				}
+				if valid(proposer, m.ProposerSig) { // the commit message carries the proposer's signature
+					signers[proposer] = true
+				}
+				for idx, s := range m.EndorsersSig {
+					if valid(idx, s) {
+						signers[idx] = true
+					}
+				}
+			}
+			if len(signers) > best {
+				best = len(signers)
+				bestDesc = fmt.Sprintf("hash %x empty=%v signers=%v", cd.h[:4], cd.empty, sortedKeys(signers))
+			}
+		}
+		if best < need {
+			sig := sigBase
+			forged := false
+			for _, m := range commits {
+				if m.Proposer == proposer && net.Nodes[m.Committer-1].Byz {
+					forged = true
+				}
+			}
+			perEndorser := map[uint32]int{}
+			dupEndorse := false
+			for _, e := range endorses {
+				if e.Proposer == proposer {
+					perEndorser[e.Endorser]++
+					if perEndorser[e.Endorser] > 1 {
+						dupEndorse = true
+					}
+				}
+			}
+			proposerVotes := false
+			for _, e := range endorses {
+				if e.Proposer == proposer && e.Endorser == proposer {
+					proposerVotes = true
+				}
+			}
+			for _, m := range commits {
+				if m.Proposer == proposer {
+					if _, ok := m.EndorsersSig[proposer]; ok || m.Committer == proposer {
+						proposerVotes = true
+					}
+				}
+			}
+			switch {
+			case forged:
+				sig += "/unverified-endorser-claims-in-commit"
+			case dupEndorse:
+				sig += "/one-peer-endorsements-counted-twice"
+			case proposerVotes:
+				sig += "/proposer-counted-twice"
+			default:
+				sig += "/other"
+			}
+			c.FailSoft("commit-without-verifiable-quorum", sig,
+				"node %d declares commit consensus at height %d for proposer %d (forEmpty=%v) holding valid signatures of only %d distinct peers (%s), need %d; %d commit msgs, %d endorse sigs held",
+				nd.I, cur, proposer, forEmpty, best, bestDesc, need, len(commits), len(endorses))
+		}
+	}
+}
+
+func sortedKeys(m map[uint32]bool) []uint32 {
+	var out []uint32
+	for k := range m {
+		out = append(out, k)
+	}
+	sort.Slice(out, func(i, j int) bool { return out[i] < out[j] })
+	return out
+}
+
+// checkParticipants is the C29 invariant, evaluated on every honest node's
+// current round; seen maps height -> first node's selection.
+func checkParticipants(c *simkit.Ctx, net *world.VbftNet, seen map[uint32]string) {
+	for _, nd := range net.Nodes {
+		if nd.Byz || nd.Srv == nil {
+			continue
+		}
+		blk, proposers, endorsers, committers, n, cf, members := nd.Srv.SimParticipants()
+		if blk == 0 {
+			continue
+		}
+		mem := map[uint32]bool{}
+		for _, m := range members {
+			mem[m] = true
+		}
+		distinct := func(xs []uint32) int {
+			s := map[uint32]bool{}
+			for _, x := range xs {
+				s[x] = true
+			}
+			return len(s)
+		}
+		desc := fmt.Sprintf("P=%v E=%v C=%v", proposers, endorsers, committers)
+		if len(proposers) != int(cf)+1 || distinct(proposers) != len(proposers) {
+			c.Fail("proposer-set-malformed", "participants", "node %d height %d N=%d C=%d: %s", nd.I, blk, n, cf, desc)
+		}
+		if distinct(endorsers) < 2*int(cf)+1 {
+			c.Fail("endorser-set-malformed", "participants", "node %d height %d N=%d C=%d: %s", nd.I, blk, n, cf, desc)
+		}
+		if distinct(committers) < 2*int(cf)+1 {
+			c.Fail("committer-set-malformed", "participants", "node %d height %d N=%d C=%d: %s", nd.I, blk, n, cf, desc)
+		}
+		for _, set := range [][]uint32{proposers, endorsers, committers} {
+			for _, x := range set {
+				if !mem[x] {
+					c.Fail("participant-not-member", "participants", "node %d height %d: %d is not in the chain configuration %v: %s", nd.I, blk, x, members, desc)
+				}
+			}
+		}
+		if prev, ok := seen[blk]; ok {
+			if prev != desc {
+				c.Fail("participants-differ-between-nodes", "participants", "height %d: node %d selects %s, another node selected %s", blk, nd.I, desc, prev)
+			}
+		} else {
+			seen[blk] = desc
+			c.State("participants", blk, desc)
+		}
+	}
+}
+
+// describeRound renders what a node's block pool holds for a round (for failure reports).
+func describeRound(nd *world.VNode, h uint32) string {
+	if nd.Srv == nil {
+		return fmt.Sprintf("node %d: server down", nd.I)
+	}
+	props, endorses, commits := nd.Srv.SimCandidate(h)
+	blk, P, E, C, _, _, _ := nd.Srv.SimParticipants()
+	s := fmt.Sprintf("node %d (idx %d) round-config(blk %d) P=%v E=%v C=%v;", nd.I, nd.I+1, blk, P, E, C)
+	for _, p := range props {
+		s += fmt.Sprintf(" proposal{by %d hash %x empty %x}", p.Proposer, p.BlockHash[:4], p.EmptyHash[:4])
+	}
+	for _, e := range endorses {
+		s += fmt.Sprintf(" endorse{%d->%d empty=%v}", e.Endorser, e.Proposer, e.ForEmpty)
+	}
+	for _, m := range commits {
+		s += fmt.Sprintf(" commit{by %d for %d hash %x empty=%v endorsers=%v}", m.Committer, m.Proposer, m.Hash[:4], m.ForEmpty, sortedKeysB(m.EndorsersSig))
+	}
+	if hh, p, _, ok := nd.Srv.SimSealed(h); ok {
+		s += fmt.Sprintf(" SEALED{%x by %d}", hh[:4], p)
+	}
+	return s
+}
+
+func sortedKeysB(m map[uint32][]byte) []uint32 {
+	var out []uint32
+	for k := range m {
+		out = append(out, k)
+	}
+	sort.Slice(out, func(i, j int) bool { return out[i] < out[j] })
+	return out
+}
